@@ -2,7 +2,10 @@
 icontract pre/postcondition on the compiled kernels' boundary (monitors every internal call)."""
 import warnings
 
+import collections
+
 import numpy as np
+import pandas as pd
 
 _ctx = {"ctx": None, "calls": 0, "armed": False}
 
@@ -116,13 +119,53 @@ class Result:
     __slots__ = ("vf", "vt", "i_f", "i_t", "res", "res_idx", "chunks", "recorder", "warned", "detector")
 
 
-def run(det, chunks, as_arrays=True):
-    """feed chunks to a fresh detector; returns Result (indices None for FKM)"""
+REPRESENTATIONS = ["float64", "list", "noncontiguous_view", "readonly", "int64", "float32", "series_nondefault_index", "tuple"]
+_repr_seen = collections.Counter()
+
+
+def represent(c, k):
+    """the same numbers in another container / dtype; falls back to float64 where the numbers would change"""
+    a = np.asarray(c, dtype=float)
+    kind = REPRESENTATIONS[k % len(REPRESENTATIONS)]
+    if kind == "int64" and not (np.all(np.isfinite(a)) and np.all(a == np.round(a)) and np.all(np.abs(a) < 2 ** 52)):
+        kind = "float64"
+    if kind == "float32" and not (np.all(np.isfinite(a)) and np.all(a.astype(np.float32).astype(float) == a)):
+        kind = "float64"
+    _repr_seen[kind] += 1
+    if kind == "list":
+        return a.tolist()
+    if kind == "tuple":
+        return tuple(a.tolist())
+    if kind == "noncontiguous_view":
+        return np.repeat(a, 2)[::2]
+    if kind == "readonly":
+        b = a.copy()
+        b.setflags(write=False)
+        return b
+    if kind == "int64":
+        return a.astype(np.int64)
+    if kind == "float32":
+        return a.astype(np.float32)
+    if kind == "series_nondefault_index":
+        return pd.Series(a, index=np.arange(len(a))[::-1] * 3 + 7)
+    return a
+
+
+def representations_seen():
+    return dict(_repr_seen)
+
+
+def run(det, chunks, as_arrays=True, vary=False):
+    """feed chunks to a fresh detector; returns Result (indices None for FKM).
+    vary: hand every chunk over in another representation of the same numbers (deterministic in the chunk)"""
     d = make(det)
     warned = 0
     with warnings.catch_warnings(record=True) as w:
         warnings.simplefilter("always")
-        for c in chunks:
+        for j, c in enumerate(chunks):
+            if vary:
+                d.process(represent(c, j * 3 + len(c)))
+                continue
             d.process(np.asarray(c, dtype=float) if as_arrays else c)
         warned = sum(1 for x in w if issubclass(x.category, UserWarning) and "NaN" in str(x.message))
     r = Result()
